@@ -31,9 +31,11 @@ def _pattern_text(mod):
     if not (isinstance(v, ast.Call) and call_name(v) == "re.compile" and v.args):
         raise AnchorMissing(f"{CQ}: _PATTERN is not re.compile(<pattern>)")
 
-    def ev(e):
+    def ev(e, depth=0):
         if isinstance(e, ast.Constant) and isinstance(e.value, str):
             return e.value
+        if isinstance(e, ast.Name) and e.id in mod.assigns and depth < 6:
+            return ev(mod.assigns[e.id][-1].value, depth + 1)  # a sub-expression hoisted into a module constant
         if isinstance(e, ast.BinOp) and isinstance(e.op, ast.Add):
             return ev(e.left) + ev(e.right)
         if isinstance(e, ast.IfExp) and "Windows" in unparse(e.test):
@@ -494,7 +496,7 @@ def _listing_verbatim(ctx):
 def _partial_string_comment_window(ctx):
     TL_ = "xonsh/tools.py"
     tm = ctx.repo.module(TL_)
-    fn = tm.func("check_for_partial_string")
+    fn = flat(ctx, tm.func("check_for_partial_string"), 2)
     st = f"{TL_}:check_for_partial_string"
     xp = param_name(fn, 0, skip_self=False)
     defs = df.all_defs(fn)
